@@ -390,6 +390,10 @@ def c07(tier, seed):
     book_gen(ck, "gen_reload_off_new", Ops=["create", "cap", "place", "disable", "enable", "reload"], Prices=[10], Vols=[1, 2],
              NLevels=1 if q else 7, MaxOrders=2, MaxOps=4 if q else 5, trunc_every=40 if q else 4,
              need=("op_reload", "rejected_order", "unplaced_order", "trading_off"), timeout=300 if q else 1500)
+    # snapshots of books whose tick size does not divide 2^32 - 1 (tick 2) with market orders in their history (a buy market order
+    # carries the price 2^32 - 1, which is not on that grid) and limit orders at the last grid price below it
+    book_gen(ck, "gen_reload_tick2_top", Ops=["cap", "cancel", "reload"], Tick=2, NLevels=2, Prices=[12, 14], Vols=[1, 2], Kinds=["L", "M"],
+             price_offset=high(2, 14), MaxOrders=3, MaxOps=4, trunc_every=40 if q else 4, need=("op_reload", "has_trade", "cancelled_order"), timeout=300 if q else 1500)
     # the restore path (both sides rebuilt from the Active entries' stored keys) in the implementation-shaped model
     impl_mc(ck, "mc_impl_reload", Ops=["cap", "cancel", "modify", "reload"], Dts=[1], Discipline=True, Prices=[10, 11], Vols=[1, 2],
             ModPrices=[-1, 11], ModVols=["smaller", "larger"], MaxOrders=3, MaxOps=4 if q else 5, timeout=300 if q else 1200)
